@@ -100,13 +100,15 @@ SenderWindow(b) == Min(p.W, p.NB - b)
 
 InitVals(pp) ==
   IF pp.role = "send"
-  THEN LET l0 == Min(pp.W, pp.NB - pp.base0) IN
-       [pc |-> IF pp.chk THEN "check" ELSE "run",
+  THEN LET l0 == Min(pp.W, pp.NB - pp.base0)
+           \* after a conformant prefix (base0 > 0) the OACK handshake lies in that prefix
+           hs == pp.chk /\ pp.base0 = 0 IN
+       [pc |-> IF hs THEN "check" ELSE "run",
         base |-> pp.base0,
-        len  |-> IF pp.chk THEN 0 ELSE l0,
-        eof  |-> IF pp.chk THEN FALSE ELSE pp.base0 + l0 = pp.NB,
+        len  |-> IF hs THEN 0 ELSE l0,
+        eof  |-> IF hs THEN FALSE ELSE pp.base0 + l0 = pp.NB,
         retry |-> 0, el |-> 0,
-        out  |-> IF pp.chk \/ l0 = 0 THEN None
+        out  |-> IF hs \/ l0 = 0 THEN None
                  ELSE [k |-> "data", next |-> pp.base0 + 1, last |-> pp.base0 + l0, c |-> 0],
         buf |-> CSEmpty, file |-> CSEmpty, fexists |-> TRUE, ok |-> FALSE, hi |-> pp.base0,
         ne |-> 0]
